@@ -58,8 +58,7 @@ def check_one(mods_, spec, W, frac, strategy, counters=None):
     # engine took are one of the matching assignments, so a violation is reported only when EVERY matching assignment has
     # a flat group on an overflowing line (no false alarm; possibly incomplete), and only when the enumeration of the
     # matching assignments was complete.
-    first = None
-    n_match = 0
+    matches = []
     gen = LR.match_all(mods_, doc, W, R, eng)
     complete = None
     while True:
@@ -68,14 +67,23 @@ def check_one(mods_, spec, W, frac, strategy, counters=None):
         except StopIteration as e:
             complete = e.value
             break
-        n_match += 1
-        r = overflow_of(m, W, R, strategy, counters if n_match == 1 else None)
+        matches.append(m)
+    n_match = len(matches)
+    # A group whose decision cannot be seen in the output (no choice of its own is affected) appears flat in one matching
+    # assignment and broken in another.  Only assignments whose set of flat groups is minimal are considered: the engine's
+    # real decisions R are a matching assignment, some minimal M has flat(M) <= flat(R) with the same output, so a flat group
+    # of M on an overflowing line is a flat group of R on the same line (sound; removes phantom explanations).
+    flats = [frozenset(i for i, g in enumerate(m.groups) if g['flat'] and g.get('decided')) for m in matches]
+    minimal = [m for m, f in zip(matches, flats) if not any(f2 < f for f2 in flats)]
+    first = None
+    for j, m in enumerate(minimal):
+        r = overflow_of(m, W, R, strategy, counters if j == 0 else None)
         if r is None:
             return None
         if first is None:
             first = r
         else:
-            # the shape tags must hold for every matching assignment
+            # the shape tags must hold for every minimal matching assignment
             first = (first[0], first[1], first[2], [t for t in first[3] if t in r[3]])
     if n_match == 0:
         if counters is not None:
